@@ -41,8 +41,10 @@ def case_st(draw):
     big = 10 * L if L < 1000000 else L + 4096
     size = draw(st.sampled_from([L - 2, L - 1, L, L, L + 1, L + 2, 0, 1, big]))
     size = max(0, size)
+    kind = draw(st.sampled_from(['text', 'binary', 'b64text'])) if carrier.startswith('ws') \
+        else 'text'
     case = {'impl': impl, 'limit': L, 'carrier': carrier, 'size': size,
-            'binary': draw(st.booleans()) if carrier.startswith('ws') else False}
+            'binary': kind == 'binary', 'b64': kind == 'b64text'}
     if carrier == 'post':
         case['declared'] = draw(st.sampled_from(['equal', 'equal', 'equal', 'smaller', 'larger',
                                                  'over-limit', 'at-limit']))
@@ -165,8 +167,18 @@ def check_case(case, ctx=None):
                 raise V(impl, 'over-16-packets-processed', trig, '%d dispatched' % len(got), rep)
         else:
             size = case['size']
+            b64_valid = False
             if case['binary']:
                 frame = b'\x07' * size
+            elif case.get('b64') and size >= 1:
+                # a binary packet in its text form: b + base64, `size` characters in all
+                import base64
+                if (size - 1) % 4 == 0:
+                    raw = b'\x07' * ((size - 1) // 4 * 3)
+                    frame = 'b' + base64.b64encode(raw).decode()
+                    b64_valid = True
+                else:
+                    frame = 'b' + 'A' * (size - 1)
             else:
                 frame = ascii_packet(size) if size >= 1 else ''
             if carrier in ('ws-frame', 'ws-frame-upgraded'):
@@ -184,8 +196,11 @@ def check_case(case, ctx=None):
                         if c.exc is None and not (conn.done or conn.server_closed):
                             raise V(impl, 'oversize-frame-did-not-end-session', trig,
                                     'frame of %d > limit %d, session still up' % (size, L), rep)
+                elif size >= 1 and case.get('b64') and not b64_valid:
+                    pass        # malformed base64 within the limit: open cell
                 elif size >= 1:
-                    want = frame if case['binary'] else 'a' * (size - 1)
+                    want = frame if case['binary'] else raw if case.get('b64') \
+                        else 'a' * (size - 1)
                     if msgs() != [want]:
                         raise V(impl, 'frame-within-limit-not-processed', trig,
                                 'frame of %d (limit %d): events %r' % (
@@ -230,7 +245,7 @@ def check_case(case, ctx=None):
             sz = case.get('size')
             nt = (sz is not None and abs(sz - L) <= 2) or case.get('declared') in (
                 'smaller', 'larger', 'over-limit', 'at-limit') or case.get('n', 0) >= 15
-            ctx.case(rep, nt, [impl, 'carrier-' + carrier,
+            ctx.case(rep, nt, [impl, 'carrier-' + carrier] + (['frame-b64-text'] if case.get('b64') else []) + [
                                'size-' + rel(sz, L) if sz is not None else 'n-%d' % case['n']])
     finally:
         ex.close()
